@@ -164,7 +164,10 @@ pub fn state_event_hist(id: usize, p: &Problem, k: u32, first: Option<u32>) -> V
         let mut pdiag = vec![false; v.n];
         for j in 0..Pint.n { for kk in Pint.colptr[j]..Pint.colptr[j + 1] { if Pint.rowval[kk] == j { pdiag[j] = true; } } }
         let fill_zero = (0..v.n).all(|j| pdiag[j] || v.nzval[v.diag_full[j]] == 0.0);
-        let soc_ok = v.sparse.iter().all(|sm| sm.kind != "soc" || (v.nzval[sm.D[1]] > 0.0 && v.nzval[sm.D[0]] == -v.nzval[sm.D[1]]));
+        // (only meaningful once the KKT values have been written: in the loop, or at the default start of a symmetric problem)
+        let n_updates = evs.iter().filter(|e| e.name == "KKTUpdate").count();
+        let written = n_updates >= 1 || pk.is_symmetric();
+        let soc_ok = !written || v.sparse.iter().all(|sm| sm.kind != "soc" || (v.nzval[sm.D[1]] > 0.0 && v.nzval[sm.D[0]] == -v.nzval[sm.D[1]]));
         let tail: Vec<i8> = v.dsigns[(v.n + v.m)..].to_vec();
         let exp_tail: Vec<i8> = v.sparse.iter().flat_map(|sm| sm.dsigns.clone()).collect();
         let maxdiag = v.diag_full.iter().map(|&i| v.nzval[i].abs()).fold(0.0f64, f64::max);
@@ -191,14 +194,23 @@ pub fn state_event_hist(id: usize, p: &Problem, k: u32, first: Option<u32>) -> V
                     let aux: Vec<usize> = if sparse { let na = v.sparse[sp].D.len(); let a = (pcol..pcol + na).collect(); pcol += na; sp += 1; a } else { vec![] };
                     if !matches!(c, ConeSpec::Zero(_)) {
                         let h = schur_block(&v, &dense, &rows, &aux);
+                        // magnitude of the terms that cancel in the elimination (rounding scale of the observer's own arithmetic)
+                        let absd = |a: usize, b: usize| dense(a, b).abs();
                         let mut r2 = 0.0;
                         let mut s2 = 0.0;
+                        let mut c2 = 0.0;
                         for a in 0..d {
                             let hz_a: f64 = (0..d).map(|b| h[a][b] * z[off + b]).sum();
+                            let mag_a: f64 = (0..d).map(|b| {
+                                let mut t = absd(rows[a], rows[b]);
+                                for &c in &aux { t += absd(rows[a], c) * absd(rows[b], c) / absd(c, c); }
+                                t * z[off + b].abs()
+                            }).sum();
                             r2 += (hz_a - s[off + a]).powi(2);
                             s2 += s[off + a].powi(2);
+                            c2 += mag_a * mag_a;
                         }
-                        hz.push(json!([fj(r2.sqrt()), fj(1e-4 * s2.sqrt() + 1e-300)]));
+                        hz.push(json!([fj(r2.sqrt()), fj(1e-4 * s2.sqrt() + 1e-10 * c2.sqrt() + 1e-300)]));
                     }
                     off += d;
                 }
